@@ -2,6 +2,7 @@ package main
 
 import (
 	"go/token"
+	"go/types"
 	"sync"
 
 	"golang.org/x/tools/go/ssa"
@@ -177,4 +178,108 @@ func roTableTargets(p *Program, v ssa.Value) []*ssa.Function {
 		}
 	}
 	return out
+}
+
+// paramFuncTargets: v is a function-typed parameter of a repository function: the functions it can be bound to, taken from
+// the arguments of every static call of that function (a function, a closure, or nil).  ok is false when some call site
+// passes something else (the set is then unknown) or the function is also used as a value.
+func paramFuncTargets(p *Program, v ssa.Value) ([]*ssa.Function, bool) {
+	prm, isParam := v.(*ssa.Parameter)
+	if !isParam {
+		return nil, false
+	}
+	if _, isSig := prm.Type().Underlying().(*types.Signature); !isSig {
+		return nil, false
+	}
+	host := prm.Parent()
+	if !p.OwnedFunc(host) {
+		return nil, false
+	}
+	idx := paramIndex(prm)
+	sites, all := staticCallSites(p, host)
+	if !all || len(sites) == 0 || idx < 0 {
+		return nil, false
+	}
+	out := []*ssa.Function{}
+	for _, cs := range sites {
+		if idx >= len(cs.Common().Args) {
+			return nil, false
+		}
+		a := cs.Common().Args[idx]
+		for i := 0; i < 3; i++ {
+			if ct, ok := a.(*ssa.ChangeType); ok {
+				a = ct.X
+			}
+		}
+		switch x := a.(type) {
+		case *ssa.Function:
+			out = append(out, x)
+		case *ssa.MakeClosure:
+			if f, ok := x.Fn.(*ssa.Function); ok {
+				out = append(out, f)
+			} else {
+				return nil, false
+			}
+		case *ssa.Const:
+			if x.Value != nil {
+				return nil, false
+			}
+		case *ssa.Parameter:
+			ts, ok := paramFuncTargets(p, x)
+			if !ok {
+				return nil, false
+			}
+			out = append(out, ts...)
+		default:
+			return nil, false
+		}
+	}
+	return out, true
+}
+
+// localFuncTargets: the call value is a local variable that holds one of several function values (a phi of closures,
+// method values, functions and nil): all of them.
+func localFuncTargets(v ssa.Value) ([]*ssa.Function, bool) {
+	out := []*ssa.Function{}
+	seen := map[ssa.Value]bool{}
+	var rec func(v ssa.Value, depth int) bool
+	rec = func(v ssa.Value, depth int) bool {
+		if seen[v] {
+			return true
+		}
+		seen[v] = true
+		if depth > 6 {
+			return false
+		}
+		switch x := v.(type) {
+		case *ssa.Phi:
+			for _, e := range x.Edges {
+				if !rec(e, depth+1) {
+					return false
+				}
+			}
+			return true
+		case *ssa.MakeClosure:
+			f, ok := x.Fn.(*ssa.Function)
+			if ok {
+				out = append(out, f)
+			}
+			return ok
+		case *ssa.Function:
+			out = append(out, x)
+			return true
+		case *ssa.Const:
+			return x.Value == nil
+		case *ssa.ChangeType:
+			return rec(x.X, depth+1)
+		}
+		return false
+	}
+	if _, isPhi := v.(*ssa.Phi); !isPhi {
+		return nil, false
+	}
+	if !rec(v, 0) {
+		return nil, false
+	}
+	return out, true
 }
